@@ -17,7 +17,7 @@ use oracle::rng::{mix, Rng};
 use serde_json::json;
 
 pub const ID: &str = "C11";
-pub const FAMS: [&str; 4] = ["cell", "small-random", "witness", "forced"];
+pub const FAMS: [&str; 5] = ["cell", "small-random", "witness", "forced", "tiny"];
 pub const KF: &str = "KF-C11-1";
 pub const KF_WHAT: &str = "site=src/placement.rs:place_on_matrix column run/window penalty terms are taken from the transpose of the UN-masked placement (same constant for all eight candidates), so the emitted mask is not always minimal under the documented penalty";
 
@@ -60,6 +60,15 @@ pub fn jobs(ctx: &Ctx) -> Vec<Job> {
         let class = rng.below(3);
         let level = rng.below(4);
         jobs.push(Job { fam: FAMS[1], class, mode: None, level: Some(level), version: None, mask: None, len: rng.below(caps.cap(10, level, class) + 1), gen: rng.below(GEN_COUNT), seed: mix(ctx.seed, k), ..Default::default() });
+    }
+    // versions 1-3 are cheap (a 21x21 candidate costs microseconds) and their dark ratio moves in
+    // coarse steps (1/441), so they are where the dark-ratio bands and ties are actually hit
+    for _ in 0..ctx.tier.pick(12_000, ctx.scale(60_000)) {
+        k += 1;
+        let class = rng.below(3);
+        let level = rng.below(4);
+        let vmax = 1 + rng.below(3);
+        jobs.push(Job { fam: FAMS[4], class, mode: if rng.chance(1, 2) { Some(class) } else { None }, level: Some(level), version: None, mask: None, len: rng.below(caps.cap(vmax, level, class) + 1), gen: rng.below(GEN_COUNT), seed: mix(ctx.seed, k), ..Default::default() });
     }
     for w in WITNESSES {
         k += 1;
@@ -288,7 +297,7 @@ pub fn run(ctx: &Ctx) -> Report {
     let st = pool::run(&jobs, ctx.remaining(), |st, job, i| observe(ctx, st, job, i));
     let mut rep = Report::new(
         st,
-        "jobs = all 160 (version, level) cells x payloads {capacity-filling, empty, constant, random} + random small inputs (v<=10, automatic version/mode) + the three witness payloads of KF-C11-1 + forced-mask builds; each automatic build is run with the candidate recorder hook armed: the eight recorded candidates must be eight distinct masks over identical placed codewords (checked by un-masking with the ISO conditions) and must equal the forced-mask builds seen through the public API; an independent scan computes the documented penalty (40 per 1011101 window, N-2 per run >=5 inside the encoding region over rows and columns of the candidate, 3 per 2x2 block, 10 per 5% dark-ratio step; both readings of an exact 5% boundary accepted) and the emitted mask must be in the argmin; ties and order-equivalent ranking scores are not alarms; a miss is classified against the predicate of known finding KF-C11-1 (emitted mask in argmin when column terms are frozen at the un-masked placement); distinct key = (options, len, payload hash); every automatic build non-trivial",
+        "jobs = all 160 (version, level) cells x payloads {capacity-filling, empty, constant, random} + random small inputs (v<=10, automatic version/mode) + 12,000 (thorough 60,000) tiny inputs for versions 1-3 (coarse dark-ratio steps: the bands of the dark-ratio term and ties are hit there) + the three witness payloads of KF-C11-1 + forced-mask builds; each automatic build is run with the candidate recorder hook armed: the eight recorded candidates must be eight distinct masks over identical placed codewords (checked by un-masking with the ISO conditions) and must equal the forced-mask builds seen through the public API; an independent scan computes the documented penalty (40 per 1011101 window, N-2 per run >=5 inside the encoding region over rows and columns of the candidate, 3 per 2x2 block, 10 per 5% dark-ratio step; both readings of an exact 5% boundary accepted) and the emitted mask must be in the argmin; ties and order-equivalent ranking scores are not alarms; a miss is classified against the predicate of known finding KF-C11-1 (emitted mask in argmin when column terms are frozen at the un-masked placement); distinct key = (options, len, payload hash); every automatic build non-trivial",
     );
     rep.expected_sets = vec![("version_level", 160), ("emitted_masks", 8), ("dark_penalty_values", 10)];
     rep.required_sets = vec![("version_level", 160)];
